@@ -20,6 +20,28 @@ confirmed = demo_with and demo_without
 caught = sorted(set(re.findall(r"VIOLATION property=(C\d+)", ev)))
 harnesses = sorted(set(re.findall(r"counterexample: (?:harness|program) (\S+?):", ev)))
 evaluated = re.findall(r"seedrun: (C\d+) -> exit (\d+)", ev)
+# honest history: which seeded changes the checks caught as they were when the change arrived, and which needed strengthening first
+HISTORY = {
+ "C01-m1": "MISSED at first (derived enums were only checked under C05); derived members are now cross-listed under C01/C02/C03 (c01q_derived_*)",
+ "C02-m1": "MISSED at first (no repr(transparent) type with a compact field in the family); STransCompact/STransAs/STransSkipZst added with boxed/array decode + round trip",
+ "C02-m2": "MISSED at first (no element type with an empty encoding but non-zero size); c02q_vec_of_empty_encoding_elems added",
+ "C03-m2": "MISSED at first under C03 (derived enums only under C05); c03q_derived_* cross-listing added",
+ "C05-m1": "MISSED at first (see C02-m1); family extended",
+ "C06-m2": "MISSED at first under C06 (holders were only checked as single values); c06q_collections_of_holders added",
+ "C07-m1": "MISSED at first (no io::Write sink with short writes); std-configuration run with ShortWriter added (c07q_iow_*)",
+ "C08-m1": "MISSED at first (see C02-m2); c08q_in_vec_of_empty_encoding_elems added",
+ "C08-m2": "MISSED at first (no zero-length read through IoReader); c08q_ioreader_zero_length_reads added",
+ "C09-m2": "MISSED at first (needs a second chunk reservation: >= 16 KiB of payload); reached with 3 input bytes through 8 KiB elements (c09q_chunk_progress_*), plus assert-and-cut stubs, and a canned native witness because Kani's playback mode runs out of memory on this harness",
+ "C10-m1": "MISSED at first (ledger element was not zero-sized); Zt (ZST with Drop) harnesses added; driver fixed to accept a cover-labelled playback test when it is the only one",
+ "C10-m2": "MISSED at first (ledger sees drops, not heap blocks); allowance-0 allocator stubs assert that a refused Box allocation is never made (c10q_refused_*)",
+ "C11-m1": "MISSED at first (empty containers were only decoded at top level); wide-but-shallow shapes and 'final depth == start depth' from any state added (c11q_restore_*, c11q_dp_empty_vec_then_*)",
+ "C12-m1": "MISSED at first (only the first announcement was checked); c12q_every_chunk_announced (8 KiB elements) added",
+ "C15-m1": "MISSED at first (zero-sized items were only `()`); c15q_zero_sized_items_with_encoding added",
+ "C16-m2": "MISSED at first (no derived type in the EncodeLike table); c16q_derived_boxed_forms added",
+ "C17-m1": "MISSED at first (no single-variant twin; the lift reported the missing kernel only as inconclusive); twins single_variant_* added",
+ "C17-m2": "MISSED at first (no skip+compact conflict twin); twins skip_and_* added",
+ "C20-m1": "needs the real-scale harness c20h_encode_owned_20000 (thorough tier only): one write of > 16 KiB into Vec<u8> under no-std",
+}
 dst.mkdir(parents=True, exist_ok=True)
 shutil.copy(src / "patch.diff", dst / "patch.diff")
 shutil.copy(src / "demo.rs", dst / "demo.rs")
@@ -32,6 +54,7 @@ meta = {
                         "demo_fails_with_change": demo_with, "demo_passes_without_change": demo_without, "suite_lines": suite[:40]},
     "checks_run": [{"property": p, "exit": int(e)} for p, e in evaluated],
     "caught_by": caught, "counterexample_harnesses": harnesses,
+    "history": HISTORY.get("%s-m%s" % (ID, k), "caught by the checks as they were when the change arrived (no strengthening needed)"),
     "eval_excerpt": [l for l in ev.splitlines() if "VIOLATION" in l or "INCONCLUSIVE" in l or "harnesses held" in l][:20],
 }
 (dst / "meta.json").write_text(json.dumps(meta, indent=1))
